@@ -18,6 +18,26 @@ CLAIMED["C07"] = dict(
     note=_NOTE,
     technique="static analysis: rustc_private MIR fact extraction + dominance / must-pass-through / counter-limit pairing / reset-completeness rules")
 
+CLAIMED["C10"] = dict(
+    level=("Static decision over every CFG path: every non-EOF `None` of the reader's char iterator is dominated by a store into the "
+           "shared error cell (7 exits, 6 stores); the byte cap is compared strictly on a non-wrapping running total before "
+           "delivery; one Rc cell is shared by iterator and event source; next/peek/finish check the cell first; every success path "
+           "of every reader entry point (incl. the three iterators) passes finish(); no fallible result of the event source or of a "
+           "writer is discarded on a path that can still succeed (crate-wide census); the io::Write adapter stores the error before "
+           "failing and the entry point returns it. Not decided: prefix property of partial output, exact bytes pulled."),
+    note=_NOTE,
+    technique="static analysis: MIR dominance / must-pass-through / discard (unused fallible result) census / strict-compare rules")
+
 NOT_APPLICABLE = {("C%02d" % i): _NB for i in range(1, 21) if ("C%02d" % i) not in CLAIMED}
+
+CLAIMED["C10"] = dict(
+    level=("Static decision over every CFG path: every non-EOF `None` of the reader's char iterator is dominated by a store into the "
+           "shared error cell (7 exits, 6 stores); the byte cap is compared strictly on a non-wrapping running total before "
+           "delivery; one Rc cell is shared by iterator and event source; next/peek/finish check the cell first; every success path "
+           "of every reader entry point (incl. the three iterators) passes finish(); no fallible result of the event source or of a "
+           "writer is discarded on a path that can still succeed (crate-wide census); the io::Write adapter stores the error before "
+           "failing and the entry point returns it. Not decided: prefix property of partial output, exact bytes pulled."),
+    note=_NOTE,
+    technique="static analysis: MIR dominance / must-pass-through / discard (unused fallible result) census / strict-compare rules")
 
 NOT_APPLICABLE = {("C%02d" % i): _NB for i in range(1, 21) if ("C%02d" % i) not in CLAIMED}
